@@ -221,10 +221,10 @@ func unParseDir(d dir, letter byte, withoutWidth bool) string {
 		b += "0"
 	}
 	plus := byte(0)
-	if d.space {
-		plus = ' '
-	} else if d.plus {
+	if d.plus {
 		plus = '+'
+	} else if d.space {
+		plus = ' '
 	}
 	if plus != 0 {
 		b += string(plus)
@@ -618,7 +618,7 @@ func gen(g *core.G) {
 	}
 	for i := 0; i < n; i++ {
 		sp := dirSpec{flags: "", width: -1, prec: -1, letter: backLetters[r.Intn(len(backLetters))]}
-		for _, fl := range "+#0-" {
+		for _, fl := range "+#0- " {
 			if r.Intn(4) == 0 {
 				sp.flags += string(fl)
 			}
@@ -645,7 +645,8 @@ func gen(g *core.G) {
 
 	// (4) malformed directives (outside the quantifier; model and implementation must still agree on the error)
 	bad := []string{"", "%", "d", "%5", "%.d", "%5.d", "%00d", "%--5d", "%++d", "%  d", "%[{d", "%<(s", "%[[a", "%|<|a", "%05", "%5.3", "%d ", " %d",
-		"%dd", "%5.3.2d", "%é", "%1$d", "%*d", "%\td", "%\n5d", "%\t\td", "%\f\rs", "%#\tx", "%0-+ #d", "%-0# +12.8x", "%0d", "%010d", "%.00d", "%.08d", "%100d", "%5.100d"}
+		"%dd", "%5.3.2d", "%é", "%1$d", "%*d", "%\td", "%\n5d", "%\t\td", "%\f\rs", "%#\tx", "%0-+ #d", "%-0# +12.8x", "%0d", "%010d", "%.00d", "%.08d", "%100d", "%5.100d",
+		"%1000001d", "%10000010d", "%.1000001s", "%99999999999999999999d", "%5.99999999999999999999x", "%1000000.1000001b"}
 	for _, d := range bad {
 		for _, v := range []sx.Sexp{vi(5), vs("ab"), va(vi(1)), vf(1.5), vu} {
 			emitFmt(g, ctx1("kind", d), v)
